@@ -1,5 +1,6 @@
 import TruthModel.Model.Diff
 import TruthModel.Driver.Sexp
+import TruthModel.Driver.C14Raise
 /-
 Driver glue for C14 (trusted, not part of any theorem).
   LINE ::= (INDEX "cs")                      one `!difficulty_flags` line
@@ -9,6 +10,7 @@ Driver glue for C14 (trusted, not part of any theorem).
         LABEL ::= "str" | none     ARG ::= (v N) | (sw CASE...)     CASE ::= _ | ARG
   (assign (LINE...) LABEL CASE...)           -> (ok (MASK N)...)   CASE ::= _ | (lit N) | (add N)
   (unit CASE...)   CASE ::= _ | N            -> (ok (select V...) (cases (MASK V)...) (bitmasks MASK...))
+  (raise GAME (LINE...) SIGS INSTR...)       -> (ok STMT...)        see Driver/C14Raise.lean
 -/
 namespace TruthModel.Driver.C14
 open TruthModel TruthModel.Diff
@@ -106,6 +108,7 @@ def handle (case : Sexp) : Sexp :=
   | some "switch" => switchCase a[0]! a[1]! (a.drop 2)
   | some "assign" => assignCase a[0]! a[1]! (a.drop 2)
   | some "unit" => unitCase a
+  | some "raise" => C14Raise.raiseCase a[1]! a[2]! (a.drop 3)
   | _ => .atom "bad-case"
 
 end TruthModel.Driver.C14
